@@ -232,6 +232,10 @@ func key(items []item) string {
 func classText(cls string, n int) string {
 	switch cls {
 	case "p":
+		if n%211 == 0 {
+			// a long run of plain text (72 000 bytes, more than a bufio.Scanner's default token): one line of the text file
+			return strings.Repeat("abz09 ;:/", 8000)
+		}
 		return string("abz09 ;:/"[n%9])
 	case "q":
 		return `"`
